@@ -334,3 +334,88 @@ frame_driver(P + "modify[value is a column of another frame]", mvals,
 frame_driver(P + "modify[callable value]", mvals,
              lambda d, nm, v: (lambda od: (d.modify(**{nm: lambda x: od.x}), [od]))(DataFrame(x=Vector(dec(v), float))),
              lambda d, nm, v: modify_expect(d, nm, Vector(dec(v), float)))
+
+
+frame_driver(P + "rename[one column]", lambda s, run: [("new1", "c0")],
+             lambda d, new, old: (d.rename(**{new: old}), []),
+             lambda d, new, old: [(new if n == old else n, d[n]) for n in d.colnames])
+frame_driver(P + "cbind", other_frames,
+             lambda d, o: (lambda od: (d.cbind(od), [od]))(build([tuple(x) for x in o])),
+             lambda d, o: (lambda od: [(n, d[n]) for n in d.colnames] + [(n, od[n]) for n in od.colnames if n not in d])(build([tuple(x) for x in o])))
+
+
+def rbind_others(spec, run):
+    out = []
+    k0 = spec[0][1]
+    v0 = enc(POOLS[k0])[:1]
+    for n2 in (0, 1, 2):
+        out.append(([("c0", k0, v0 * n2)],))                 # same name, same dtype
+        out.append(([("z", "str", ["a"] * n2), ("q", "int", [1] * n2)],))   # disjoint names
+        if len(spec) > 1 and spec[1][1] in ("int", "float"):
+            out.append(([("z", "str", ["a"] * n2), ("c1", "float", enc([0.5]) * n2)],))    # promotable numeric pair
+    return out
+
+
+def rbind_expect(d, od):
+    names = list(dict.fromkeys(d.colnames + od.colnames))
+    out = []
+    for n in names:
+        parts = []
+        for fr in (d, od):
+            if n in fr:
+                parts.append(fr[n])
+            else:
+                ref = d[n] if n in d else od[n]
+                parts.append(Vector.fast([ref.na_value], ref.na_dtype).repeat(fr.nrow))
+        out.append((n, DataFrameColumn(np.concatenate(parts))))
+    return out
+
+
+@driver(P + "rbind")
+def rbind_driver(run):
+    run.bound = B(run) + "; second frame: one or two columns (overlapping / disjoint names), 0-2 rows"
+    g = ((spec, o) for spec in frames(maxrow(run)) for (o,) in rbind_others(spec, run))
+    for spec, o in run.inputs(g):
+        spec, o = [tuple(x) for x in spec], [tuple(x) for x in o]
+        d, od = build(spec), build(o)
+        b1, b2 = snapshot(d), snapshot(od)
+        try:
+            got = d.rbind(od)
+            names = list(dict.fromkeys(d.colnames + od.colnames))
+            ok = isinstance(got, DataFrame) and got.colnames == names and got.nrow == d.nrow + od.nrow
+            for n in names if ok else []:
+                col = got[n]
+                for fr, off in ((d, 0), (od, d.nrow)):
+                    for i in range(fr.nrow):
+                        x = col[off + i]
+                        if n in fr:
+                            ok = ok and (cell_eq(x, fr[n][i]) or (x == fr[n][i]) or (is_missing(x) and is_missing(fr[n][i])))
+                        else:
+                            ok = ok and is_missing(x)
+            ok = ok and snapshot(d) == b1 and snapshot(od) == b2 and no_shared(got, d, od)
+            obs = {c: list(got[c]) for c in got.colnames}
+        except Exception as e:
+            ok, obs = False, f"raised {type(e).__name__}: {e}"
+        run.check([spec, o], ok, expected="union of columns, stacked rows, missing where absent", got=obs, clause="rbind")
+
+
+@driver(P + "colnames[setter, ncol<=3 enumerated]")
+def colnames_driver(run):
+    import itertools as it_
+    run.bound = "frames of 0-3 columns x 0-2 rows; every permutation of the names, fresh names, mixtures"
+    def gen():
+        for n in range(4):
+            old = [f"c{i}" for i in range(n)]
+            news = set(it_.permutations(old)) | {tuple(f"x{i}" for i in range(n))}
+            if n >= 2:
+                news |= {tuple(["c1", "x0"] + old[2:]), tuple(["x0", "c0"] + old[2:])}
+            for new in sorted(news):
+                for nrow in range(3):
+                    yield old, list(new), nrow
+    for old, new, nrow in run.inputs(gen()):
+        d = DataFrame(**{c: [10 * i + r for r in range(nrow)] for i, c in enumerate(old)})
+        vals = [list(d[c]) for c in old]
+        d.colnames = new
+        ok = d.colnames == new and [list(d[c]) for c in new] == vals
+        ok = ok and all(getattr(d, c) is d[c] for c in new) and all((c in new) or not hasattr(d, c) for c in old)
+        run.check([old, new, nrow], ok, expected=list(zip(new, vals)), got={c: list(d[c]) for c in d.colnames}, clause="positional rename in place")
